@@ -35,7 +35,7 @@ def expectedHardcoded : List (String × String × String) := [
   ("photon_weave/state/envelope.py", "measure", "abac->bc"),
   ("photon_weave/state/envelope.py", "measure", "abcb->ac"),
   ("photon_weave/state/envelope.py", "measure", "abac->bc"),
-  ("photon_weave/state/envelope.py", "measure_POVM", "abcd,becf,gehf->agdh"),
+  ("photon_weave/state/envelope.py", "measure_POVM", "abcd,bedf,gehf->agch"),
   ("photon_weave/state/envelope.py", "measure_POVM", "ab,bcde,fc->afde"),
   ("photon_weave/state/envelope.py", "measure_POVM", "abcc->ab"),
   ("photon_weave/state/envelope.py", "measure_POVM", "aabc->bc"),
@@ -75,7 +75,7 @@ def expectedPlans : List (String × String × List (List Nat) × List Nat) := [
   ("photon_weave/state/envelope.py", "measure", [[0, 1, 0, 2]], [1, 2]),
   ("photon_weave/state/envelope.py", "measure", [[0, 1, 2, 1]], [0, 2]),
   ("photon_weave/state/envelope.py", "measure", [[0, 1, 0, 2]], [1, 2]),
-  ("photon_weave/state/envelope.py", "measure_POVM", [[0, 1, 2, 3], [1, 4, 2, 5], [6, 4, 7, 5]], [0, 6, 3, 7]),
+  ("photon_weave/state/envelope.py", "measure_POVM", [[0, 1, 2, 3], [1, 4, 3, 5], [6, 4, 7, 5]], [0, 6, 2, 7]),
   ("photon_weave/state/envelope.py", "measure_POVM", [[0, 1], [1, 2, 3, 4], [5, 2]], [0, 5, 3, 4]),
   ("photon_weave/state/envelope.py", "measure_POVM", [[0, 1, 2, 2]], [0, 1]),
   ("photon_weave/state/envelope.py", "measure_POVM", [[0, 0, 1, 2]], [1, 2]),
